@@ -37,6 +37,16 @@ def replay_file(path):
             print("  ", m)
         print("REPRODUCED" if msgs else "not reproduced on the current tree")
         return 1 if msgs else 0
+    if kind == "bounded":
+        from checklib.bounded import BOUNDED
+
+        r = BOUNDED[fi["bounded"]](int(fi.get("seed", 0)), thorough=False)
+        hits = [v for v in r["violations"] if v.get("index") == fi.get("index")] or r["violations"]
+        for v in hits[:3]:
+            for m in v.get("violations", []):
+                print("  ", m)
+        print("REPRODUCED" if hits else "not reproduced on the current tree")
+        return 1 if hits else 0
     if kind == "script":
         import subprocess, sys, os  # noqa: E401
 
